@@ -249,6 +249,40 @@ def solveCnf (fuel : Nat) (cnf0 : CNF) (o : Oracle) : Result :=
   let (pr, tr) := unitPropagate (nvars + 2) cnf [] 0
   mainLoop order nvars fuel fuel ⟨cnf, tr, 0, [], o.res⟩ pr
 
+-- ---------------------------------------------------------------- runs without learning (used by `solve_terminates_partial`)
+
+/-- The run from `(s, pr)` learns no non-empty clause within `fuel` iterations: it ends by
+`satisfiable`, or by a conflict whose analysis gives the empty clause (a conflict at level 0).
+Same recursion as `mainLoop`. -/
+def noLearn (vars : List Nat) (nvars af : Nat) : Nat → St → Prop' → Bool
+  | 0, _, _ => true
+  | fuel + 1, s, pr =>
+    match pr with
+    | .outOfFuel => true
+    | .sat => true
+    | .undecided =>
+      let level := s.level + 1
+      let tr := decideVar vars s.tr level
+      let (pr', tr') := unitPropagate (nvars + 2) s.cnf tr level
+      noLearn vars nvars af fuel { s with tr := tr', level := level } pr'
+    | .conflict cid =>
+      match s.cnf[cid]? with
+      | none => false
+      | some c0 =>
+        match analyze af s.cnf s.tr [cid] c0 s.orc with
+        | .error _ => false
+        | .ok (_, clause, _) => clause.isEmpty
+
+/-- `noLearn` for the whole of `solve_cnf` (same set-up as `solveCnf`) -/
+def noLearnRun (fuel : Nat) (cnf0 : CNF) (o : Oracle) : Bool :=
+  let cnf := cnf0.map dedup
+  let vs := varsOf cnf
+  let order := if o.vars.length == vs.length && vs.all o.vars.contains && o.vars.all vs.contains
+               then o.vars else vs
+  let nvars := vs.length
+  let (pr, tr) := unitPropagate (nvars + 2) cnf [] 0
+  noLearn order nvars fuel fuel ⟨cnf, tr, 0, [], o.res⟩ pr
+
 -- ---------------------------------------------------------------- trace checking
 
 /-- First literal of `c1` whose negation occurs in `c2`. -/
